@@ -215,3 +215,65 @@ Fixpoint uuids_ok (v : gval) : bool :=
   | GUnion _ x => uuids_ok x
   | _ => true
   end.
+
+(* every keeping union along the known fields carries no field, or exactly one field whose id the reader knows (what a
+   writer of a schema whose union variants the reader all knows produces) *)
+Section Single.
+  Variable S : schema.
+
+  Fixpoint unions_single (t : ty) (v : tval) {struct v} : bool :=
+    match v with
+    | VList _ l =>
+        match resolve S t with
+        | TyList et => (fix go (l : list tval) : bool := match l with [] => true | x :: r => unions_single et x && go r end) l
+        | _ => true
+        end
+    | VSet _ l =>
+        match resolve S t with
+        | TySet et => (fix go (l : list tval) : bool := match l with [] => true | x :: r => unions_single et x && go r end) l
+        | _ => true
+        end
+    | VMap _ _ l =>
+        match resolve S t with
+        | TyMap kt vt =>
+            (fix go (l : list (tval * tval)) : bool :=
+               match l with [] => true | (a, b) :: r => unions_single kt a && unions_single vt b && go r end) l
+        | _ => true
+        end
+    | VStruct fs =>
+        match resolve S t with
+        | TyRef n =>
+            match lookup S n with
+            | Some (DStruct dfs _ _) =>
+                (fix go (fs : list (Z * tval)) : bool :=
+                   match fs with
+                   | [] => true
+                   | (id, x) :: r =>
+                       match match_field S dfs O (Some id) (ttype_of x) with
+                       | Some (_, f) => unions_single (f_ty f) x
+                       | None => true
+                       end && go r
+                   end) fs
+            | Some (DUnion vs _ true) =>
+                match fs with
+                | [] => true
+                | [(id, x)] => match variant_by_id S vs id with Some vt => unions_single vt x | None => false end
+                | _ => false
+                end
+            | Some (DUnion vs _ false) =>
+                (fix go (fs : list (Z * tval)) : bool :=
+                   match fs with
+                   | [] => true
+                   | (id, x) :: r =>
+                       match variant_by_id S vs id with
+                       | Some vt => unions_single vt x
+                       | None => true
+                       end && go r
+                   end) fs
+            | _ => true
+            end
+        | _ => true
+        end
+    | _ => true
+    end.
+End Single.
